@@ -15,6 +15,7 @@ SCALAR = {"a": "a", "b": "b", "c": "c", "d": "d", "e2": "é", "f2": "ß", "u3": 
           # GenColl: upper-case images, separators, digits and the letters of true / false (f-strings)
           "A": "A", "B": "B", "C": "C", "D": "D", "E2": "É", "S": "S", "s": "s", "cm": ",", "da": "-",
           "t": "t", "r": "r", "u": "u", "e": "e", "f": "f", "l": "l",
+          "dt": ".",        # GenIter: float("2.5")
           "0": "0", "1": "1", "2": "2", "3": "3", "4": "4", "5": "5", "6": "6", "7": "7", "8": "8", "9": "9"}
 
 
@@ -114,6 +115,12 @@ def render_expr(e):
         return f"{e['f']}(" + ", ".join(render_expr(a) for a in e["args"]) + ")"
     if k == "range":
         return "range(" + ", ".join(render_expr(a) for a in e["args"]) + ")"
+    if k == "enumerate":
+        return f"enumerate({render_expr(e['e'])})"
+    if k == "zip":
+        return f"zip({render_expr(e['a'])}, {render_expr(e['b'])})"
+    if k == "setlit":
+        return "{" + ", ".join(render_expr(a) for a in e["items"]) + "}"
     if k == "fstr":
         out = ""
         for p in e["parts"]:
@@ -123,7 +130,7 @@ def render_expr(e):
 
 
 TY = {"int": "int", "float": "float", "bool": "bool", "str": "str", "list[int]": "List[int]", "list[str]": "List[str]",
-      "none": "None"}
+      "none": "None", "opt[int]": "Option[int]", "res[int,str]": "Result[int, str]"}
 
 
 ENUM_OF = {"Dot": "Shape", "Circle": "Shape", "Rect": "Shape"}
@@ -199,6 +206,10 @@ def render_stmt(s, ind):
         return [f"{pad}while {render_expr(s['cond'])}:"] + render_block(s["body"], ind + 1)
     if k == "for":
         return [f"{pad}for {s['var']} in {render_expr(s['iter'])}:"] + render_block(s["body"], ind + 1)
+    if k == "forun":
+        return [f"{pad}for {', '.join(s['vars'])} in {render_expr(s['iter'])}:"] + render_block(s["body"], ind + 1)
+    if k == "unpack":
+        return [f"{pad}{', '.join(s['names'])} = {render_expr(s['e'])}"]
     if k == "setidx":
         return [f"{pad}{s['name']}[{render_expr(s['idx'])}] {s.get('op', '')}= {render_expr(s['e'])}"]
     if k == "setfield":
@@ -330,6 +341,11 @@ def to_project_expr(e):
     if k in ("callv", "range"):
         return {"k": "call", "f": {"k": "ident", "name": e["f"] if k == "callv" else "range"},
                 "args": [{"ak": "pos", "e": to_project_expr(a)} for a in e["args"]]}
+    if k in ("enumerate", "zip"):
+        return {"k": "call", "f": {"k": "ident", "name": k},
+                "args": [{"ak": "pos", "e": to_project_expr(a)} for a in ([e["e"]] if k == "enumerate" else [e["a"], e["b"]])]}
+    if k == "setlit":
+        return {"k": "set", "items": [to_project_expr(a) for a in e["items"]]}
     if k == "fstr":
         parts = []
         for p in e["parts"]:
@@ -374,6 +390,10 @@ def P_ty(t):
         return {"k": "tsimple", "name": "None"}
     if t.startswith("list["):
         return {"k": "tgeneric", "name": "List", "targs": [P_ty(t[5:-1])]}
+    if t == "opt[int]":
+        return {"k": "tgeneric", "name": "Option", "targs": [P_ty("int")]}
+    if t == "res[int,str]":
+        return {"k": "tgeneric", "name": "Result", "targs": [P_ty("int"), P_ty("str")]}
     raise ValueError(t)
 
 
@@ -405,6 +425,10 @@ def to_project_stmt(s):
         return {"k": "while", "cond": to_project_expr(s["cond"]), "body": to_project_block(s["body"])}
     if k == "for":
         return {"k": "for", "var": s["var"], "iter": to_project_expr(s["iter"]), "body": to_project_block(s["body"])}
+    if k == "unpack":
+        return {"k": "unpack", "bk": "inferred", "names": list(s["names"]), "e": to_project_expr(s["e"])}
+    if k == "forun":     # `for a, b in it:` (the projection of the real AST has a single `var`; kept apart on purpose)
+        return {"k": "for", "vars": list(s["vars"]), "iter": to_project_expr(s["iter"]), "body": to_project_block(s["body"])}
     if k == "setfield":
         if s["op"]:      # the parser desugars `p.f op= e` into `p.f = p.f op e`
             return {"k": "fassign", "obj": to_project_expr(s["target"]["obj"]), "field": s["target"]["field"],
